@@ -30,6 +30,8 @@ BATTERIES_QUICK = [
     # inputs shared between the threads (outputs stay private)
     [["wk.marshal.shared", "wk.encrypt.shared"], ["wk.marshal.shared"], ["wk.encrypt.shared", "pairing.shared"]],
     [["lq.encrypt.shared"], ["lq.decrypt.shared", "wk.sign.shared"]],
+    # validating decodes (curve and subgroup checks) next to calls that can be parked
+    [["g1.decode", "g2.decode", "wk.unmarshal"], ["g2.decode", "lq.encrypt", "g1.decode"]],
 ]
 BATTERIES_THOROUGH = BATTERIES_QUICK + [
     [["lq.encrypt", "wk.encrypt"], ["wk.sign", "lq.decrypt"], ["gt.random", "pairing"]],
